@@ -126,6 +126,18 @@ def digit_families():
                 comp(["n", "T"], [fld("a", 0, "u8")]), comp(["n", "T"], [fld("b", 0, "u8")]),
                 comp(["m", "H"], [fld("p", 3, "T"), fld("q", 4, "T"), fld("r", 5, "T"), fld("s", 6, "T"), fld("t", 7, "T"), fld("u", 8, "T")])]
     fams.append(("three-shapes-two-families", three_shapes))
+    def nontransitive(order):
+        def mk(eng):
+            # Foo<T>{x:Vec<T>, y:T} at u16 and at u8, and a second definition Foo<T>{x:Vec<u8>, y:T} at u32: the u8 instantiation is
+            # id-compatible with both other members (types_equal is not transitive here); it must be renamed exactly once
+            reg = [prim("U8"), prim("U16"), prim("U32"), seq(0), seq(1),
+                   comp(["m", "Foo"], [fld("x", 4, "Vec<T>"), fld("y", 1, "T")], params=[("T", 1)]),
+                   comp(["m", "Foo"], [fld("x", 3, "Vec<u8>"), fld("y", 2, "T")], params=[("T", 2)]),
+                   comp(["m", "Foo"], [fld("x", 3, "Vec<T>"), fld("y", 0, "T")], params=[("T", 0)]),
+                   comp(["m", "H"], [fld("a", 5, "Foo<u16>"), fld("b", 6, "Foo<u32>"), fld("c", 7, "Foo<u8>")])]
+            return permute(reg, order) if order else reg
+        return mk
+    fams.append(("nontransitive-member-last", nontransitive(None))); fams.append(("nontransitive-member-middle", nontransitive([0, 1, 2, 3, 4, 5, 7, 6, 8])))
     return fams
 
 def families(eng, tier, seed):
